@@ -417,7 +417,7 @@ def main(argv):
         import kani
         try:
             extra['kani'] = kani.run(REPO, [prop])
-            if extra['kani'].get('rc') not in (0, None) and not any(h['status'] == 'FAILURE' for h in extra['kani']['harnesses']):
+            if extra['kani'].get('rc') not in (0, None) and not extra['kani'].get('any_failure'):
                 undecided.append('kani did not complete: ' + extra['kani'].get('tail', '')[-600:])
         except AnchorLost as e:
             undecided.append('K1: anchor lost: %s' % e)
